@@ -320,6 +320,10 @@ Section Tracker.
   | OpPop (mmsi : Z)
   | OpAttach (ev : trk_event) (cb : Z)       (* register_callback *)
   | OpDetach (ev : trk_event) (cb : Z)       (* remove_callback *)
+  | OpInsertOrUpdate (now : Z) (decoded : trk_msg) (ts_epoch_ms : option Z)
+      (* tracker.insert_or_update(int(decoded.mmsi), msg_to_track(decoded, ts_epoch_ms)) -- the public method below update():
+         no ordering check, no cleanup().  In ordered mode the caller is responsible for non-decreasing timestamps on
+         this route (otherwise the unchanged code itself leaves the table unsorted); the theorems assume it (`op_ok`). *)
   | OpSetTtl (ttl : option Z)                (* tracker.ttl_in_seconds = ttl   (a public attribute; cleanup() reads it afresh) *)
   | OpUnordered.                             (* tracker.stream_is_ordered = False   (only this direction: a table that was kept
                                                 sorted is a legal unordered table; switching an unordered tracker to ordered
@@ -340,6 +344,9 @@ Section Tracker.
       let '(st1, calls, _) := trk_pop_track st mmsi in mkResult st1 calls None
     | OpAttach ev cb => mkResult (with_broker st (brk_attach (t_broker st) ev cb)) [] None
     | OpDetach ev cb => mkResult (with_broker st (brk_detach (t_broker st) ev cb)) [] None
+    | OpInsertOrUpdate now decoded ts =>
+      let '(st1, calls, e) := trk_insert_or_update st (m_mmsi decoded) (trk_msg_to_track nattrs decoded ts now) in
+      mkResult st1 calls e
     | OpSetTtl ttl => mkResult (with_ttl st ttl) [] None
     | OpUnordered => mkResult (with_ordered st false) [] None
     end.
@@ -543,6 +550,8 @@ Section TrackerCb.
     | OpPop mmsi => trkc_pop_track env st mmsi
     | OpAttach ev cb => mkCResult (with_broker st (brk_attach (t_broker st) ev cb)) [] [] None None
     | OpDetach ev cb => mkCResult (with_broker st (brk_detach (t_broker st) ev cb)) [] [] None None
+    | OpInsertOrUpdate now decoded ts =>
+      trkc_insert_or_update env st (m_mmsi decoded) (trk_msg_to_track nattrs decoded ts now)
     | OpSetTtl ttl => mkCResult (with_ttl st ttl) [] [] None None
     | OpUnordered => mkCResult (with_ordered st false) [] [] None None
     end.
@@ -606,6 +615,8 @@ Section TrackerCb.
     match op with
     | OpUpdate now decoded ts => trkc_update_unrepaired nattrs env st now decoded ts
     | OpCleanup now => trkc_cleanup_unrepaired env st now
+    | OpInsertOrUpdate now decoded ts =>
+      trkc_insert_or_update_unrepaired env st (m_mmsi decoded) (trk_msg_to_track nattrs decoded ts now)
     | _ => trkc_step nattrs env st op
     end.
 
